@@ -87,6 +87,22 @@ impl WideColumn for WideUnit {
 impl WideColumnValue<WideUnit> for String { fn discriminant() -> u8 { 0 } }
 impl WideColumnValue<WideUnit> for u64 { fn discriminant() -> u8 { 1 } }
 
+/// a column whose key AND discriminant have empty encodings: with a value of type () every byte string involved is empty
+#[derive(Debug, Clone, Copy, PartialEq, Eq, PartialOrd, Ord, Hash, Identifiable)]
+#[stable_type_id_crate(qbice_stable_type_id)]
+struct WideNothing;
+impl WideColumn for WideNothing {
+    type Discriminant = ();
+    type Key = ();
+    fn discriminant_encoding() -> DiscriminantEncoding { DiscriminantEncoding::Suffixed }
+}
+impl WideColumnValue<WideNothing> for () { fn discriminant() {} }
+/// string keys and members (strings travel through read_raw_bytes / emit_bytes, unlike Vec<u8>)
+#[derive(Debug, Clone, Copy, PartialEq, Eq, PartialOrd, Ord, Hash, Identifiable)]
+#[stable_type_id_crate(qbice_stable_type_id)]
+struct SetStr;
+impl KeyOfSetColumn for SetStr { type Key = String; type Element = String; }
+
 #[derive(Default)]
 struct Model {
     set_bytes: BTreeMap<Vec<u8>, BTreeSet<Vec<u8>>>,
@@ -340,6 +356,92 @@ fn empty_encodings<D: KvDatabase>(name: &str, open: &dyn Fn() -> D) -> u64 {
     checks
 }
 
+/// directed: batches that consist ONLY of operations whose encoded key and value are empty byte strings (direct and through a
+/// serialization buffer), each in a batch of its own: put, overwrite-visible-after-reopen, delete
+fn all_empty_batch<D: KvDatabase>(name: &str, open: &dyn Fn() -> D) -> u64 {
+    let mut checks = 0;
+    for via_buffer in [false, true] {
+        let how = if via_buffer { "through a serialization buffer" } else { "directly" };
+        {
+            let db = open();
+            // make sure the slot is empty to start with (second pass)
+            let mut b = db.write_batch(); b.delete::<WideNothing, ()>(&()); b.put::<WidePre, u64>(&vec![9u8], &7); b.commit();
+            let mut b = db.write_batch();
+            if via_buffer { let mut buf = db.serialization_buffer(); buf.put::<WideNothing, ()>(&(), &()); b.consume_serialization_buffer(buf); } else { b.put::<WideNothing, ()>(&(), &()); }
+            b.commit();
+            let g = db.get_wide_column::<WideNothing, ()>(&()); checks += 1;
+            if g != Some(()) { found(&format!("{name}: a batch holding only an empty-key/empty-value put ({how}) was not applied"), "put::<WideNothing, ()>((), ()) alone in a batch; commit; get", &format!("{g:?}"), "Some(())"); }
+        }
+        {
+            let db = open();
+            let g = db.get_wide_column::<WideNothing, ()>(&()); checks += 1;
+            if g != Some(()) { found(&format!("{name}: the empty/empty put ({how}) is gone after reopen"), "put alone in a batch; commit; reopen; get", &format!("{g:?}"), "Some(())"); }
+            let mut b = db.write_batch();
+            if via_buffer { let mut buf = db.serialization_buffer(); buf.delete::<WideNothing, ()>(&()); b.consume_serialization_buffer(buf); } else { b.delete::<WideNothing, ()>(&()); }
+            b.commit();
+            let g = db.get_wide_column::<WideNothing, ()>(&()); checks += 1;
+            if g.is_some() { found(&format!("{name}: a batch holding only an empty-key delete ({how}) was not applied"), "put committed; delete::<WideNothing, ()>(()) alone in a batch; commit; get", &format!("{g:?}"), "None"); }
+        }
+        {
+            let db = open();
+            let g = db.get_wide_column::<WideNothing, ()>(&()); checks += 1;
+            if g.is_some() { found(&format!("{name}: the empty-key delete ({how}) is undone after reopen"), "put; delete alone in a batch; commit; reopen; get", &format!("{g:?}"), "None"); }
+        }
+    }
+    checks
+}
+
+/// directed: multi-kilobyte strings as values, keys and set members (payload sizes around 1 KiB, 4 KiB, 64 KiB), next to short
+/// ones, read back, scanned, and again after reopen
+fn large_payloads<D: KvDatabase>(name: &str, open: &dyn Fn() -> D) -> u64 {
+    let mut checks = 0;
+    let sizes = [0usize, 1, 127, 128, 1023, 1024, 1025, 2048, 4097, 5000, 65535, 65536, 70001];
+    let text = |n: usize, c: char| -> String { let mut s = String::with_capacity(n); for i in 0..n { s.push(if i % 97 == 0 { c } else { (b'a' + (i % 23) as u8) as char }); } s };
+    let check = |db: &D, when: &str, checks: &mut u64| {
+        for (i, n) in sizes.iter().enumerate() {
+            let key = vec![i as u8];
+            let want = text(*n, 'V');
+            let g = db.get_wide_column::<WidePre, String>(&key); *checks += 1;
+            if g.as_deref() != Some(want.as_str()) { found(&format!("{name}: a {n}-byte string value reads back differently {when}"), &format!("put::<WidePre, String>({key:?}, <{n} bytes>); commit; get"), &format!("{:?} bytes", g.map(|x| x.len())), &format!("Some({n}) bytes, same content")); }
+            let g = db.get_wide_column::<WideSuf, String>(&key); *checks += 1;
+            if g.as_deref() != Some(want.as_str()) { found(&format!("{name}: a {n}-byte string value (suffixed column) reads back differently {when}"), &format!("put::<WideSuf, String>({key:?}, <{n} bytes>)"), &format!("{:?} bytes", g.map(|x| x.len())), &format!("Some({n}) bytes")); }
+        }
+        // members are part of the backend KEY: Fjall limits keys to 65535 bytes (a documented limit of the trusted backend), so
+        // members stay multi-kilobyte, values go beyond 64 KiB
+        let got: BTreeSet<String> = db.scan_members::<SetStr>(&"k".to_string()).collect();
+        let want: BTreeSet<String> = sizes.iter().filter(|n| **n <= 5000).map(|n| text(*n, 'M')).collect();
+        *checks += 1;
+        if got != want { found(&format!("{name}: members of multi-kilobyte size scan back differently {when}"), &format!("insert_member::<SetStr>(\"k\", <strings of {sizes:?} bytes>); commit; scan"), &format!("lengths {:?}", got.iter().map(|x| x.len()).collect::<Vec<_>>()), &format!("lengths {:?}", want.iter().map(|x| x.len()).collect::<Vec<_>>())); }
+        for n in [1024usize, 1025, 5000] {
+            let bigkey = text(n, 'K');
+            let got: BTreeSet<String> = db.scan_members::<SetStr>(&bigkey).collect();
+            *checks += 1;
+            if got != BTreeSet::from(["m".to_string(), text(n, 'E')]) { found(&format!("{name}: the set of a {n}-byte key scans back differently {when}"), &format!("insert_member::<SetStr>(<{n}-byte key>, \"m\" and a {n}-byte member)"), &format!("lengths {:?}", got.iter().map(|x| x.len()).collect::<Vec<_>>()), "2 members"); }
+        }
+    };
+    {
+        let db = open();
+        let mut b = db.write_batch();
+        let mut buf = db.serialization_buffer();
+        for (i, n) in sizes.iter().enumerate() {
+            let key = vec![i as u8];
+            b.put::<WidePre, String>(&key, &text(*n, 'V'));
+            buf.put::<WideSuf, String>(&key, &text(*n, 'V'));
+            if *n <= 5000 { if i % 2 == 0 { b.insert_member::<SetStr>(&"k".to_string(), &text(*n, 'M')); } else { buf.insert_member::<SetStr>(&"k".to_string(), &text(*n, 'M')); } }
+        }
+        for n in [1024usize, 1025, 5000] {
+            b.insert_member::<SetStr>(&text(n, 'K'), &"m".to_string());
+            buf.insert_member::<SetStr>(&text(n, 'K'), &text(n, 'E'));
+        }
+        b.consume_serialization_buffer(buf);
+        b.commit();
+        check(&db, "in the same process", &mut checks);
+    }
+    let db = open();
+    check(&db, "after reopen", &mut checks);
+    checks
+}
+
 fn main() {
     let a: Vec<String> = std::env::args().collect();
     let mut seed = 0u64;
@@ -363,6 +465,10 @@ fn main() {
         n += same_slot_twice_in_one_buffer("rocksdb", &|| RocksDB::open(&p1c, Plugin::default()).unwrap());
         let p1d = base.join("rocks_empty");
         n += empty_encodings("rocksdb", &|| RocksDB::open(&p1d, Plugin::default()).unwrap());
+        let p1e = base.join("rocks_all_empty");
+        n += all_empty_batch("rocksdb", &|| RocksDB::open(&p1e, Plugin::default()).unwrap());
+        let p1f = base.join("rocks_large");
+        n += large_payloads("rocksdb", &|| RocksDB::open(&p1f, Plugin::default()).unwrap());
     }
     {
         use qbice_storage::kv_database::fjall::Fjall;
@@ -373,6 +479,10 @@ fn main() {
         n += same_slot_twice_in_one_buffer("fjall", &|| Fjall::open(&p2c, Plugin::default()).unwrap());
         let p2d = base.join("fjall_empty");
         n += empty_encodings("fjall", &|| Fjall::open(&p2d, Plugin::default()).unwrap());
+        let p2e = base.join("fjall_all_empty");
+        n += all_empty_batch("fjall", &|| Fjall::open(&p2e, Plugin::default()).unwrap());
+        let p2f = base.join("fjall_large");
+        n += large_payloads("fjall", &|| Fjall::open(&p2f, Plugin::default()).unwrap());
     }
     let _ = std::fs::remove_dir_all(&base);
     println!("{{\"found\": false, \"searched\": {n}}}");
